@@ -187,6 +187,7 @@ def run(ctx):
                        f"(stream {stream}, case {i})", replay, concrete=False)
         else:
             ctx.count("E3_reconstruction", "agreements")
+    import gencheck14; gencheck14.run_generated_c14(ctx)   # generated-model tie: get_solution_walks and its helpers regenerated from source (coq/gen_proofs/WalksSpec.v)
 
 
 def replay(ctx, body):
